@@ -1,3 +1,4 @@
+pub mod c01;
 pub mod c05;
 pub mod c10;
 pub mod c12;
@@ -12,6 +13,7 @@ use std::path::Path;
 
 pub fn run(ctx: &Ctx) -> i32 {
     match ctx.id.as_str() {
+        "C01" => c01::run(ctx),
         "C05" => c05::run(ctx),
         "C10" => c10::run(ctx),
         "C12" => c12::run(ctx),
@@ -46,6 +48,7 @@ pub fn replay(ctx: &Ctx, path: &Path) -> i32 {
     let check = check.split('@').next().unwrap_or("").to_string();
     let tape = unhex(v["tape_hex"].as_str().unwrap_or(""));
     let r = match ctx.id.as_str() {
+        "C01" => c01::replay(ctx, &check, &tape),
         "C05" => c05::replay(ctx, &check, &tape),
         "C10" => c10::replay(ctx, &check, &tape),
         "C12" => c12::replay(ctx, &check, &tape),
